@@ -40,13 +40,16 @@ class RKAdaptiveStepSolver(object):
         self.yshape = y0.shape
         self.y0 = y0.reshape(-1)
 
+        # the lambdas must not capture self: self.func -> lambda -> self would be
+        # a reference cycle keeping the tensors of this solver alive after the call
+        yshape = self.yshape
         direction = ts[1] - ts[0]
         if direction < 0:
             self.ts = -ts
-            self.func = lambda t, y: -fcn(-t, y.reshape(self.yshape), *params).reshape(-1)
+            self.func = lambda t, y: -fcn(-t, y.reshape(yshape), *params).reshape(-1)
         else:
             self.ts = ts
-            self.func = lambda t, y: fcn(t, y.reshape(self.yshape), *params).reshape(-1)
+            self.func = lambda t, y: fcn(t, y.reshape(yshape), *params).reshape(-1)
         self.dtype = y0.dtype
         self.device = y0.device
         n = torch.numel(y0)
